@@ -195,7 +195,19 @@ def property_files(pid: str):
     only = only_units()
     if only:   # development aid: VERIF_ONLY=tsp,atsp restricts a run to the named units/adapters
         files = [p for p in files if p.stem == pid or p.stem.split("_", 1)[1] in only]
+    else:
+        off = disabled_units()
+        files = [p for p in files if p.stem == pid or p.stem.split("_", 1)[1] not in off]
     return files
+
+
+def disabled_units():
+    """Units/adapters that exist in the tree but are still under construction (vt/units_disabled.txt, one per line):
+    skipped by the registered checks, still runnable with VERIF_ONLY=<unit>."""
+    p = VERIF / "vt" / "units_disabled.txt"
+    if not p.exists():
+        return set()
+    return set(x.strip() for x in p.read_text().splitlines() if x.strip() and not x.startswith("#"))
 
 
 def only_units():
